@@ -190,6 +190,7 @@ class InteractiveStepExecutor(ExecutorBase):
         super().__init__(max_cores=max_cores)
         check_resource_dict_keys(resource_dict=executor_kwargs, spawner=spawner)
         self._default_cores = executor_kwargs.get("cores", 1)
+        self._default_threads_per_core = executor_kwargs.get("threads_per_core", 1)
         self._spawner = spawner
         executor_kwargs["future_queue"] = self._future_queue
         executor_kwargs["spawner"] = spawner
@@ -610,7 +611,9 @@ def _submit_function_to_separate_process(
         resource_dict["cores"] == 1 and executor_kwargs["cores"] >= 1
     ):
         resource_dict["cores"] = executor_kwargs["cores"]
-    slots_required = resource_dict["cores"] * resource_dict.get("threads_per_core", 1)
+    slots_required = resource_dict["cores"] * resource_dict.get(
+        "threads_per_core", executor_kwargs.get("threads_per_core", 1)
+    )
     active_task_dict = _wait_for_free_slots(
         active_task_dict=active_task_dict,
         cores_requested=slots_required,
